@@ -16,7 +16,8 @@
 (***************************************************************************)
 EXTENDS Mod2Design, TLC, Json
 
-CONSTANTS MaxV, MaxE, CBits, Export
+CONSTANTS MaxV, MaxE, CBits, Export,
+          Part      \* 4: everything; 0..3: only MaxV variables, constants of the first two equations fixed (a quarter of the systems)
 
 VARIABLES nv, eqs
 mcvars == <<nv, eqs>>
@@ -26,9 +27,12 @@ Sys == [nv |-> nv, eqs |-> eqs]
 
 AllEqs(n) == { [v |-> SortedSeq(S), c |-> SortedSeq(C)] : S \in (SUBSET (0 .. n - 1)) \ {{}}, C \in SUBSET CBits }
 
-MCInit == nv \in 0 .. MaxV /\ eqs = <<>>
+PartOK(e) == IF Part = 4 THEN TRUE
+             ELSE IF Len(eqs) >= 2 THEN TRUE
+             ELSE (e.c = <<>>) = ((IF Len(eqs) = 0 THEN Part % 2 ELSE Part \div 2) = 0)
+MCInit == nv \in (IF Part = 4 THEN 0 .. MaxV ELSE {MaxV}) /\ eqs = <<>>
 Push   == /\ Len(eqs) < MaxE
-          /\ \E e \in AllEqs(nv) : eqs' = Append(eqs, e)
+          /\ \E e \in AllEqs(nv) : PartOK(e) /\ eqs' = Append(eqs, e)
           /\ UNCHANGED nv
 MCNext == Push
 MCSpec == MCInit /\ [][MCNext]_mcvars
